@@ -42,14 +42,17 @@ void _ZNSt7__cxx1112basic_stringIcSt11char_traitsIcESaIcEEC1ERKS4_(struct std_st
 void _ZNSt7__cxx1112basic_stringIcSt11char_traitsIcESaIcEEC1EmcRKS3_(struct std_string *this, unsigned long n, char c, const void *a)
 { (void)a; (void)c; SZ(this) = n; __havoc_str(this); }
 unsigned long _ZNKSt7__cxx1112basic_stringIcSt11char_traitsIcESaIcEE4sizeEv(const struct std_string *this) { LIVE((void *)this, 32, "std::string::size"); return SZ(this); }
-char g_cstr[8];
-const char *_ZNKSt7__cxx1112basic_stringIcSt11char_traitsIcESaIcEE5c_strEv(const struct std_string *this) { LIVE((void *)this, 32, "std::string::c_str"); return g_cstr; }
+char g_cstr[8]; unsigned long g_cstr_id;   /* the (one) c_str() result and the content identity it stands for (strid.h) */
+const char *_ZNKSt7__cxx1112basic_stringIcSt11char_traitsIcESaIcEE5c_strEv(const struct std_string *this) { LIVE((void *)this, 32, "std::string::c_str"); g_cstr_id = CW(this, 0); return g_cstr; }
 struct std_string *_ZNSt7__cxx1112basic_stringIcSt11char_traitsIcESaIcEE6appendERKS4_(struct std_string *this, const struct std_string *s)
 { LIVE(this, 32, "std::string::append"); LIVE((void *)s, 32, "std::string::append(arg)"); __CPROVER_assume(SZ(this) + SZ(s) <= MAXLEN); SZ(this) = SZ(this) + SZ(s); __havoc_str(this); return this; }
 struct std_string *_ZNSt7__cxx1112basic_stringIcSt11char_traitsIcESaIcEE6appendEmc(struct std_string *this, unsigned long n, char c)
 { (void)c; LIVE(this, 32, "std::string::append(n,c)"); __CPROVER_assume(SZ(this) + n <= MAXLEN); SZ(this) = SZ(this) + n; __havoc_str(this); return this; }
 struct std_string *_ZNSt7__cxx1112basic_stringIcSt11char_traitsIcESaIcEE6assignERKS4_(struct std_string *this, const struct std_string *s)
 { LIVE(this, 32, "std::string::assign"); LIVE((void *)s, 32, "std::string::assign(arg)"); CW(this, 0) = CW(s, 0); CW(this, 1) = CW(s, 1); CW(this, 2) = CW(s, 2); CW(this, 3) = CW(s, 3); return this; }
+/* string& operator=(const string&) */
+struct std_string *_ZNSt7__cxx1112basic_stringIcSt11char_traitsIcESaIcEEaSERKS4_(struct std_string *this, const struct std_string *s)
+{ LIVE(this, 32, "std::string::operator="); LIVE((void *)s, 32, "std::string::operator=(arg)"); CW(this, 0) = CW(s, 0); CW(this, 1) = CW(s, 1); CW(this, 2) = CW(s, 2); CW(this, 3) = CW(s, 3); return this; }
 /* replace(pos, n1, n2, c): throws out_of_range if pos > size() */
 struct std_string *_ZNSt7__cxx1112basic_stringIcSt11char_traitsIcESaIcEE7replaceEmmmc(struct std_string *this, unsigned long pos, unsigned long n1, unsigned long n2, char c)
 {
@@ -76,6 +79,7 @@ struct str_iter { unsigned long idx; };
 #define DEF_ITER_PLUS(ITER_T, NAME) \
   struct ITER_T NAME(const struct ITER_T *this, long n) { struct ITER_T it; CW(&it, 0) = CW(this, 0) + (unsigned long)n; return it; }
 
+#ifndef CONTAINERS_STRINGS_ONLY   /* translation units without bloc::Value / Expression use the string model alone */
 /* ---------------- std::vector<bloc::Expression*> (the argument list of a builtin / member node) ---------------- */
 #define ARGS_MAX 4
 struct Expression g_arg_node[ARGS_MAX]; struct Expression *g_args[ARGS_MAX] = { &g_arg_node[0], &g_arg_node[1], &g_arg_node[2], &g_arg_node[3] }; unsigned long g_nargs;
@@ -127,4 +131,5 @@ struct vchar_iterator _ZNSt6vectorIcSaIcEE5eraseEN9__gnu_cxx17__normal_iteratorI
 struct vval_iterator _ZN4bloc10Collection5eraseEN9__gnu_cxx17__normal_iteratorIPKNS_5ValueESt6vectorIS3_SaIS3_EEEE(struct Collection *this, struct vval_citerator pos)
 { struct vval_iterator it; __CPROVER_assert(ITER_IDX(&pos) < SZ(&this->v), "std::vector<Value>::erase(iterator): the position is dereferenceable (erase(end()) is undefined)"); SZ(&this->v) = SZ(&this->v) - 1; ITER_IDX(&it) = ITER_IDX(&pos); return it; }
 #endif
+#endif /* CONTAINERS_STRINGS_ONLY */
 #endif
